@@ -34,7 +34,7 @@ RULE = ('cases: seeded model configurations (plain / grid / continuous world, wr
         'of different seeds of one configuration differ. Non-trivial: trajectory with >=20 random picks/shuffles whose digest was '
         'compared under >=8 perturbations; distinct by (configuration, seed).')
 ASSUMPTIONS = ['"for all seeds / hash seeds / process counts" is sampled', 'the fixture draws all of its own randomness from model.random']
-FLOORS = {'quick': {'configurations_whose_systems_register_more_systems_mid_timestep': 2, 'configurations_seeded_by_assignment_with_the_default_environment': 1, 'configurations_seeded_by_assigning_model_random': 1, 'deep_copied_models_compared': 160, 'recycled_worlds_with_earlier_draws': 129, 'recycled_world_comparisons': 160, 'batch_runs_open_signature_model': 8, 'digests_compared': 280, 'trajectories': 24, 'watched_calls': 20000, 'global_reseeds': 5000, 'interleaved_other_models': 500,
+FLOORS = {'quick': {'configurations_whose_first_framework_draw_comes_after_completion': 1, 'configurations_whose_systems_register_more_systems_mid_timestep': 2, 'configurations_seeded_by_assignment_with_the_default_environment': 1, 'configurations_seeded_by_assigning_model_random': 1, 'deep_copied_models_compared': 160, 'recycled_worlds_with_earlier_draws': 129, 'recycled_world_comparisons': 160, 'batch_runs_open_signature_model': 8, 'digests_compared': 280, 'trajectories': 24, 'watched_calls': 20000, 'global_reseeds': 5000, 'interleaved_other_models': 500,
                     'fresh_interpreter_digests': 96, 'batch_worker_digests': 72, 'distinct_seed_pairs_differ': 30, 'big_configurations': 2, 'seed_zero_trajectories': 6,
                     'hash_seeds_used': 4, 'reach:Core.Environment.get_random_agent': 14000, 'reach:Core.Environment.shuffle': 8600},
           'thorough': {'digests_compared': 6000, 'trajectories': 500, 'watched_calls': 400000}}
@@ -113,6 +113,11 @@ def case_cfg(ctx, case):
     if not case.get('big') and case['i'] % 2 == 0:
         cfg['spawn'] = True         # a system registers a batch of equal-priority systems from inside a timestep
         ctx.count('configurations_whose_systems_register_more_systems_mid_timestep')
+    if not case.get('big') and case['i'] % 5 == 3:
+        cfg['quiet'] = True
+        cfg['world'] = 'plain'
+        cfg.pop('spawn', None)
+        ctx.count('configurations_whose_first_framework_draw_comes_after_completion')
     if not case.get('big') and case['i'] % 3 == 1:
         # every third configuration is seeded by assigning `model.random` (in turn with the default plain environment, which exists before
         # the assignment, and with worlds installed after it)
